@@ -468,10 +468,16 @@ func (env *Env) binop(x *Expr) Val {
 	switch x.Name {
 	case "&&":
 		a := env.eval(x.Args[0])
+		if a.term() == "false" {
+			return boolVal("false")
+		}
 		b := env.eval(x.Args[1])
 		return boolVal(mkAnd(a.term(), b.term()))
 	case "||":
 		a := env.eval(x.Args[0])
+		if a.term() == "true" {
+			return boolVal("true")
+		}
 		b := env.eval(x.Args[1])
 		return boolVal(mkOr(a.term(), b.term()))
 	case "==>":
@@ -724,6 +730,37 @@ func (env *Env) call(x *Expr) Val {
 		}
 		t := env.resolveType(x.Args[1].Name)
 		return e.unbox(a, t)
+	case "defined":
+		if x.Args[0].Op != "ident" {
+			efail("defined(name)")
+		}
+		for fr := env.fr; fr != nil; fr = fr.parent {
+			if _, ok := fr.names[x.Args[0].Name]; ok {
+				return boolVal("true")
+			}
+			if _, ok := fr.heapNames[x.Args[0].Name]; ok {
+				return boolVal("true")
+			}
+		}
+		return boolVal("false")
+	case "isbytes":
+		// isbytes(b, "lit"): b is syntactically the byte-slice conversion of the string literal
+		a := env.eval(x.Args[0])
+		if x.Args[1].Op != "str" || len(a.L) != 4 {
+			efail("isbytes(slice, \"literal\")")
+		}
+		if a.L[0] == mkApp("bytesof", e.strConst(x.Args[1].Name)) {
+			return boolVal("true")
+		}
+		return boolVal("false")
+	case "nondetBool":
+		return boolVal(e.smt.Fresh("nondet", SBool))
+	case "nondetInt":
+		return intVal(e.smt.Fresh("nondet", SInt))
+	case "bytesof":
+		a := env.eval(x.Args[0])
+		e.smt.Declare("bytesof", []string{SU}, SU)
+		return specVal(mkApp("bytesof", a.term()), SU)
 	case "strcat":
 		a := env.eval(x.Args[0])
 		b := env.eval(x.Args[1])
@@ -740,8 +777,27 @@ func (env *Env) call(x *Expr) Val {
 	case "isfn":
 		// isfn(v, "name"): the func value v is statically known to be function/closure `name`
 		a := env.eval(x.Args[0])
-		if r := a.ref(0); r != nil && r.Fn != nil && x.Args[1].Op == "str" {
-			if shortName(r.Fn.String()) == x.Args[1].Name || strings.HasSuffix(shortName(r.Fn.String()), x.Args[1].Name) {
+		if x.Args[1].Op != "str" {
+			efail("isfn(v, \"name\")")
+		}
+		match := func(r *Refine) bool {
+			if r == nil || r.Fn == nil {
+				return false
+			}
+			n := strings.TrimSuffix(shortName(r.Fn.String()), "$bound")
+			return n == x.Args[1].Name
+		}
+		if r := a.ref(0); r != nil {
+			if len(r.Alts) > 0 {
+				var gs []string
+				for _, alt := range r.Alts {
+					if match(alt.R) {
+						gs = append(gs, alt.Guard)
+					}
+				}
+				return boolVal(mkOr(gs...))
+			}
+			if match(r) {
 				return boolVal("true")
 			}
 		}
